@@ -12,6 +12,7 @@ import (
 // Call is one northbound request in flight.
 type Call struct {
 	Done   bool
+	reaped bool
 	Resp   interface{}
 	Err    error
 	Panic  string
@@ -34,7 +35,9 @@ func (w *World) GoSet(ctx context.Context, req *gnmi.SetRequest) *Call {
 		}()
 		c.Resp, c.Err = w.gnmi.Set(ctx, req)
 	}()
+	w.calls = append(w.calls, c)
 	synctest.Wait()
+	w.ReapCalls()
 	return c
 }
 
@@ -57,4 +60,25 @@ func (w *World) Drain(queue []Token, maxSteps int, onStep func(t Token, r StepRe
 
 func utilsParse(s string) (*gnmi.Path, error) {
 	return utils.ParseGNMIElements(utils.SplitPath(s))
+}
+
+// ReapCalls cancels the context of every call whose handler has returned, as the gRPC server does. It is done at
+// quiescent points only (the race between that cancellation and a further event is explored by the C08/C15 checks).
+func (w *World) ReapCalls() {
+	reaped := false
+	live := w.calls[:0]
+	for _, c := range w.calls {
+		if c.Done && !c.reaped {
+			c.reaped = true
+			c.cancel()
+			reaped = true
+		}
+		if !c.Done {
+			live = append(live, c)
+		}
+	}
+	w.calls = live
+	if reaped {
+		synctest.Wait()
+	}
 }
